@@ -977,6 +977,9 @@ pub fn main(a: &Args) {
         let o = if big { BnfOpts { max_nt: 5, max_t: 4, max_alts: 3, max_len: 4, ..opts } } else { opts };
         let g = if i % 5 == 3 {
             gen_ctx(&mut rng)
+        } else if i % 10 == 1 {
+            rep.count("lists_family_grammars_generated", 1);
+            gen_lists(&mut rng)
         } else if i % 20 == 7 && prop != "C03" {
             rep.count("big_family_grammars_generated", 1);
             gen_big(&mut rng)
